@@ -307,19 +307,52 @@ def r15_6(ctx):
             n += 1
             lst = norm(x.value)
             names = {lst, "self.num_msgs", f"len({lst})"}
+            # locals that are copies of one of those (`seq_max = self.num_msgs`)
+            for s_ in body_walk(fi.node):
+                if isinstance(s_, ast.Assign) and len(s_.targets) == 1 and isinstance(s_.targets[0], ast.Name) and norm(s_.value) in names:
+                    names.add(s_.targets[0].id)
 
-            def mentions(t):
-                return any(norm(y) in names for y in ast.walk(t))
+            def polarity(t):
+                """True: the test holds when the list is non-empty; False: when it is empty; None: says nothing"""
+                if isinstance(t, ast.UnaryOp) and isinstance(t.op, ast.Not):
+                    v = polarity(t.operand)
+                    return None if v is None else (not v)
+                if norm(t) in names:
+                    return True
+                if isinstance(t, ast.Compare) and len(t.ops) == 1 and norm(t.left) not in names and norm(t.comparators[0]) in names:
+                    mirror = {ast.Lt: ast.Gt, ast.Gt: ast.Lt, ast.LtE: ast.GtE, ast.GtE: ast.LtE, ast.Eq: ast.Eq, ast.NotEq: ast.NotEq}
+                    if type(t.ops[0]) in mirror:
+                        t = ast.Compare(left=t.comparators[0], ops=[mirror[type(t.ops[0])]()], comparators=[t.left])
+                if isinstance(t, ast.Compare) and len(t.ops) == 1 and norm(t.left) in names:
+                    r, op = t.comparators[0], t.ops[0]
+                    if isinstance(r, ast.Constant) and r.value == 0:
+                        return True if isinstance(op, (ast.Gt, ast.NotEq)) else (False if isinstance(op, (ast.Eq, ast.LtE)) else None)
+                    if isinstance(r, ast.Constant) and r.value == 1 and isinstance(op, ast.GtE):
+                        return True
+                    # `num_msgs < <a positive limit>` (a configured size threshold, a constant >= 1) holds for the empty list
+                    if isinstance(op, ast.Lt) and (isinstance(r, (ast.Attribute, ast.Name)) or (isinstance(r, ast.Constant) and isinstance(r.value, int) and r.value >= 1)):
+                        return False
+                    if isinstance(r, (ast.List, ast.Tuple)) and not r.elts:
+                        return True if isinstance(op, ast.NotEq) else (False if isinstance(op, ast.Eq) else None)
+                if isinstance(t, ast.BoolOp) and isinstance(t.op, ast.And):
+                    return True if any(polarity(v) is True for v in t.values) else None
+                if isinstance(t, ast.BoolOp) and isinstance(t.op, ast.Or):
+                    return False if any(polarity(v) is False for v in t.values) and False else None
+                return None
 
             guarded = False
             cur = x
             while cur in par and not guarded:
                 up = par[cur]
-                if isinstance(up, ast.IfExp) and cur is up.body and mentions(up.test):
-                    guarded = True
-                if isinstance(up, (ast.If, ast.While)) and cur in up.body and mentions(up.test):
-                    guarded = True
-                if isinstance(up, ast.BoolOp) and isinstance(up.op, ast.And) and any(mentions(v) for v in up.values[: up.values.index(cur)] if cur in up.values):
+                if isinstance(up, ast.IfExp):
+                    pol = polarity(up.test)
+                    if (cur is up.body and pol is True) or (cur is up.orelse and pol is False):
+                        guarded = True
+                if isinstance(up, (ast.If, ast.While)):
+                    pol = polarity(up.test)
+                    if (cur in up.body and pol is True) or (cur in up.orelse and pol is False):
+                        guarded = True
+                if isinstance(up, ast.BoolOp) and isinstance(up.op, ast.And) and cur in up.values and any(polarity(v) is True for v in up.values[: up.values.index(cur)]):
                     guarded = True
                 cur = up
             if not guarded:
@@ -327,7 +360,7 @@ def r15_6(ctx):
                 st = x
                 while not isinstance(st, ast.stmt):
                     st = par[st]
-                tests = {nd.id for nd in g.nodes if nd.kind == "test" and nd.ast is not None and mentions(nd.ast) and isinstance(nd.stmt, ast.If) and any(isinstance(b, (ast.Return, ast.Raise, ast.Continue)) for b in nd.stmt.body)}
+                tests = {nd.id for nd in g.nodes if nd.kind == "test" and nd.ast is not None and polarity(nd.ast) is False and isinstance(nd.stmt, ast.If) and any(isinstance(b, (ast.Return, ast.Raise, ast.Continue)) for b in nd.stmt.body)}
                 nodes = g.nodes_for(st)
                 if nodes and tests and flow.dominated_by(g, nodes[0], lambda z: z in tests) is None:
                     guarded = True
